@@ -2,6 +2,7 @@ SPECIFICATION Spec
 CONSTANTS
   Ms = {1, 2, 4, 8, 16, 32, 64, 128, 256}
   RecThreshold = 2048
+  Layout = "reim"
   GenMode = FALSE
 INVARIANTS WellFormed OneMonomialPerInput IsEvalMap FullMixing
 CHECK_DEADLOCK FALSE
